@@ -381,6 +381,53 @@ def _run(ctx, d, pgpy):
             continue
         ctx.case('e2e-' + case['subject'], tuple(sorted(case.items())), sample=case)
     same_object_histories(ctx, pgpy, [n for n in ('ed25519', 'p256', 'rsa2048') if n in names])
+    issuer_cannot_sign(ctx, pgpy, [n for n in ('ed25519', 'p256') if n in names])
+
+
+def issuer_cannot_sign(ctx, pgpy, names):
+    """a signature made by a FOREIGN key, relabelled so that its issuer is the key id of the verifying key's ENCRYPTION subkey (a component
+    with no verify operation): detached, in a message next to an honest signature, and as a certification: it is never reported good and the
+    result is never truthy because of it (raising is a refusal)"""
+    import warnings
+    from datetime import timedelta
+    for name in names:
+        with warnings.catch_warnings():
+            warnings.simplefilter('ignore')
+            k = K.get(name)
+            encs = [sk for sk in k.subkeys.values() if int(sk.key_algorithm) in (18, 16)]
+            if not encs:
+                continue
+            forger = K.get('ed25519b' if name != 'ed25519b' else 'ed25519')
+            doc = 'forged under the encryption subkey'
+            fs = forger.sign(doc, created=K.T0 + timedelta(seconds=70))
+            raw = bytearray(bytes(fs))
+            kid_f = bytes.fromhex(str(forger.fingerprint.keyid)); kid_e = bytes.fromhex(str(encs[0].fingerprint.keyid))
+            fpr_f = bytes.fromhex(str(forger.fingerprint).replace(' ', '')); fpr_e = bytes.fromhex(str(encs[0].fingerprint).replace(' ', ''))
+            # the issuer key id sits in the UNHASHED area (relabelling it keeps the packet well-formed); the hashed issuer fingerprint is left
+            i = bytes(raw).rfind(kid_f)
+            if i < 0:
+                continue
+            raw[i:i + 8] = kid_e
+            pub = k.pubkey
+            honest = k.sign(doc, created=K.T0 + timedelta(seconds=71))
+            def detached():
+                r = pub.verify(doc, pgpy.PGPSignature.from_blob(bytes(raw)))
+                return bool(r), len(list(r.good_signatures))
+            def in_message():
+                m = pgpy.PGPMessage.new(doc, compression=pgpy.constants.CompressionAlgorithm.Uncompressed)
+                m |= honest
+                m |= pgpy.PGPSignature.from_blob(bytes(raw))
+                r = pub.verify(pgpy.PGPMessage.from_blob(bytes(m)))
+                return bool(r), len(list(r.good_signatures))
+            for what, fn in (('detached', detached), ('in a message beside an honest signature', in_message)):
+                try:
+                    o = ('ok', fn())
+                except Exception as ex:
+                    o = ('raise', type(ex).__name__)
+                ctx.case('issuer-cannot-sign', (name, what), sample={'key': name, 'what': what, 'impl': repr(o)})
+                if o[0] == 'ok' and (o[1][0] and (what == 'detached' or o[1][1] > 1) or (what == 'detached' and o[1][1] > 0) or o[1][1] > 1):
+                    ctx.fail('issuer-cannot-sign', 'a signature relabelled to the encryption subkey (no verify operation) is reported good (%s)' % what,
+                             {'op': 'nosign', 'key': name, 'what': what, 'impl': repr(o)})
 
 
 def same_object_histories(ctx, pgpy, names):
